@@ -157,12 +157,23 @@ func fieldShown(sec, name, want, kind string) string {
 			cands = append(cands, am[1])
 		}
 	}
-	for _, m := range ms {
-		add(m[1])
-		// other pairs may follow on the same line: the value then ends at one of the delimiters
-		for i, ch := range m[1] {
+	// every occurrence of "<name> :" counts, also several on one line (a record may carry an element more than once and
+	// a rendering may put a record on one line): the value runs to the end of the line or to one of the delimiters
+	reS := reCache[name+"\x00start"]
+	if reS == nil {
+		reS = regexp.MustCompile(`(?m)(?:^|[\s,;{\[(])` + regexp.QuoteMeta(name) + `[ \t]*[:=][ \t]*`)
+		reCache[name+"\x00start"] = reS
+	}
+	for _, loc := range reS.FindAllStringIndex(sec, -1) {
+		v := sec[loc[1]:]
+		if nl := strings.IndexByte(v, '\n'); nl >= 0 {
+			v = v[:nl]
+		}
+		v = strings.TrimRight(v, " \t\r")
+		add(v)
+		for i, ch := range v {
 			if ch == ',' || ch == ';' {
-				add(strings.TrimRight(m[1][:i], " \t"))
+				add(strings.TrimRight(v[:i], " \t"))
 			}
 		}
 	}
